@@ -181,7 +181,7 @@ def write_svg(matrix, matrix_size, out, colormap, scale=1, border=None, xmldecl=
     if omit_encoding:
         encoding = 'utf-8'
     allow_css3_colors = svgversion is not None and svgversion >= 2.0
-    is_multicolor = len(set(colormap.values())) > 2
+    is_multicolor = len(set(colormap.values())) > 2 or not _is_two_tone(colormap)
     need_background = not is_multicolor and colormap[consts.TYPE_QUIET_ZONE] is not None and not draw_transparent
     need_svg_group = scale != 1 and (need_background or is_multicolor)
     # Size of the background in modules (the path is scaled by the scale factor)
@@ -562,7 +562,7 @@ def write_png(matrix, matrix_size, out, colormap, scale=1, border=None, compress
             # Since black is zero, it should be the first entry
             palette = [black, transparent]
         png_trans_idx = palette.index(transparent)
-    if number_of_colors > 2:
+    if number_of_colors > 2 or not _is_two_tone(clr_map):
         # Need the more expensive matrix iterator
         miter = matrix_iter_verbose(matrix, matrix_size, scale=1, border=0)
         color_index = {module_type: palette.index(clr) for module_type, clr in clr_map.items()}
@@ -1475,6 +1475,17 @@ _NAME2RGB = {
     'yellow': (255, 255, 0),
     'yellowgreen': (154, 205, 50),
 }
+
+
+def _is_two_tone(colormap):
+    """\
+    Returns if all dark module types share one color and all light module
+    types (incl. separator and quiet zone) share one color.
+
+    Only in this case the module types are irrelevant for the rendering.
+    """
+    return len({clr for mt, clr in colormap.items() if mt >> 8}) == 1 \
+        and len({clr for mt, clr in colormap.items() if not mt >> 8}) == 1
 
 
 def _make_colormap(matrix_width, matrix_height, dark, light,
